@@ -4,11 +4,13 @@ package l2
 
 import (
 	"crypto/x509"
+	"io"
 	"sync"
 	"sync/atomic"
 	"time"
 
 	"go.uber.org/zap"
+	"go.uber.org/zap/zapcore"
 
 	"github.com/gr33nbl00d/caddy-revocation-validator/config"
 	"github.com/gr33nbl00d/caddy-revocation-validator/core/verifhook"
@@ -26,6 +28,22 @@ type Opts struct {
 	Trusted  []*x509.Certificate
 	CRLUrls  []string
 	CRLFiles []string
+	Logger   *zap.Logger // nil: no-op logger
+}
+
+func (o Opts) logger() *zap.Logger {
+	if o.Logger != nil {
+		return o.Logger
+	}
+	// default: every level enabled, output discarded (behaviour must not depend on the log level)
+	return DebugLogger()
+}
+
+// DebugLogger is a logger with every level enabled that discards its output (code paths that
+// only run when debug logging is on are exercised, nothing is printed).
+func DebugLogger() *zap.Logger {
+	core := zapcore.NewCore(zapcore.NewJSONEncoder(zap.NewProductionEncoderConfig()), zapcore.AddSync(io.Discard), zapcore.DebugLevel)
+	return zap.New(core)
 }
 
 // Config builds the parsed configuration the way configparser.go would.
@@ -137,7 +155,7 @@ func Start(o Opts) (*Checker, error) {
 	InstallHooks()
 	before := passBegin.Load()
 	c := &crl.CRLRevocationChecker{}
-	if err := c.Provision(o.Config(), zap.NewNop()); err != nil {
+	if err := c.Provision(o.Config(), o.logger()); err != nil {
 		_ = c.Cleanup()
 		return nil, err
 	}
@@ -151,7 +169,7 @@ func Start(o Opts) (*Checker, error) {
 func StartNoWait(o Opts) (*Checker, error) {
 	InstallHooks()
 	c := &crl.CRLRevocationChecker{}
-	if err := c.Provision(o.Config(), zap.NewNop()); err != nil {
+	if err := c.Provision(o.Config(), o.logger()); err != nil {
 		_ = c.Cleanup()
 		return nil, err
 	}
